@@ -319,3 +319,49 @@ Definition ok_print_tol (v : Q) (u : unit_) (printed : str) : bool :=
   | Some (num, u') => unit_eqb u u' && canonical_number num && Qle_bool (Qabs (number_q num - v)%Q) tol200
   | None => false
   end.
+
+(* ---- C18, wave 3: what the statement fixes, no more ------------------------------------------------------------ *)
+(* printing: "rounds to two decimals and re-parsing reproduces it": a number with at most two decimals, the unit, within
+   1/200 of the value.  (The canonical form - no trailing zero, no leading zeros - of ok_print is what the code does and
+   what the model is proved to do; it is compared as information, not demanded.) *)
+Definition two_decimals (s : str) : bool :=
+  match split_ch 46 s with
+  | [a] => all_digits a
+  | [a; b] => all_digits a && all_digits b && (length b <=? 2)%nat
+  | _ => false
+  end.
+Definition ok_print_stmt (v : Q) (u : unit_) (printed : str) : bool :=
+  match spec_split printed with
+  | Some (num, u') => unit_eqb u u' && two_decimals num && Qle_bool (Qabs (number_q num - v)%Q) (1 # 200)%Q
+  | None => false
+  end.
+
+(* padding shorthand: the statement speaks of one to four sizes; an attribute is judged when it is 1-4 strings of the
+   size language separated by single spaces (other separators, arities and malformed tokens: counted, not judged) *)
+Definition padding_judged (s : str) : bool :=
+  match all_some (map spec_parse (split_ch 32 s)) with
+  | Some vus => (1 <=? length vus)%nat && (length vus <=? 4)%nat
+  | None => false
+  end.
+Definition two_judged (s : str) : bool :=
+  match all_some (map spec_parse (split_ch 32 s)) with
+  | Some vus => (length vus =? 2)%nat
+  | None => false
+  end.
+
+(* equality as identity of normal forms: every number reduced to lowest terms, webvtt_positioning dropped *)
+Definition norm_size (a : size) : size := mkSize (Qred (s_val a)) (s_unit a).
+Definition norm_point (p : point) : point := mkPoint (norm_size (p_x p)) (norm_size (p_y p)).
+Definition norm_stretch (p : stretch) : stretch := mkStretch (norm_size (st_h p)) (norm_size (st_v p)).
+Definition norm_padding (p : padding) : padding :=
+  mkPadding (norm_size (pd_before p)) (norm_size (pd_after p)) (norm_size (pd_start p)) (norm_size (pd_end p)).
+Definition norm_layout (l : layout) : layout :=
+  mkLayout (option_map norm_point (l_origin l)) (option_map norm_stretch (l_extent l)) (option_map norm_padding (l_padding l))
+           (l_alignment l) None.
+
+(* C13: a length observed in writer output, statement level: <= 2 decimals, the unit, within 1/200 (+1e-9 binary64 noise) *)
+Definition ok_print_tol_stmt (v : Q) (u : unit_) (printed : str) : bool :=
+  match spec_split printed with
+  | Some (num, u') => unit_eqb u u' && two_decimals num && Qle_bool (Qabs (number_q num - v)%Q) tol200
+  | None => false
+  end.
